@@ -1,5 +1,7 @@
 import MosdnsVerif.Base.Hex
 import MosdnsVerif.Model.C18
+import MosdnsVerif.Gen.Facts
+import MosdnsVerif.Gen.FnUpstream
 
 namespace Driver.C18
 open Model.C18
@@ -8,7 +10,44 @@ def showHP : Except Unit (Bytes × UInt16) → String
   | .error _ => "err"
   | .ok (h, p) => s!"{Hex.encode h} {p.toNat}"
 
+/-- one upstream of a `boot` line: raw URL host / dial_addr / scheme default port / was a dial observed -/
+def bootItem? (s : String) : Option (Bytes × Bytes × UInt16 × Bool) :=
+  match s.splitOn "/" with
+  | [u, a, d, o] => do
+    let u ← Hex.decode u
+    let a ← Hex.decode a
+    let d ← d.toNat?
+    some (u, a, UInt16.ofNat d, o == "1")
+  | _ => none
+
+/-- Several bootstrapped upstreams created one after the other in one process:
+for each, the name asked at the bootstrap server and the port dialled. The
+dial target is `parseDialAddr` on `Gen.tryTrimIpv6Brackets` of the URL host; what
+`bootstrap.New` and `updateAddr` do with it is read from the regenerated facts;
+when they do not hold the model does not constrain the outcome. -/
+def boot (items : List (Bytes × Bytes × UInt16 × Bool)) : String :=
+  let perCall := Gen.Facts.c18BootNewPerCall == some true
+  let ownPort := Gen.Facts.c18BootAddrOwnPort == some true
+  if !(perCall && ownPort && Gen.Facts.c18BootCallsPassTarget == some true) then "unconstrained" else
+  match items.mapM (fun (u, a, d, _) =>
+      match parseDialAddr splitHostPort parseUint16 (Gen.tryTrimIpv6Brackets u) a d with
+      | .ok t => some t
+      | .error _ => none) with
+  | none => "err"
+  | some targets =>
+    let boots := createAll perCall (fun _ h p => ⟨fqdn h, p⟩) [] targets
+    let outs := (boots.zip items).map (fun (b, (_, _, _, obs)) =>
+      if obs then
+        let (q, p) := bootDial ownPort (fun b => b.port) b
+        s!"{Hex.encode q}:{p.toNat}"
+      else "?")
+    ",".intercalate outs
+
 def handle : List String → String
+  | ["boot", spec] =>
+    match (spec.splitOn ",").mapM bootItem? with
+    | some items => boot items
+    | none => "bad-op"
   | ["split", s] =>
     match Hex.decode s with
     | some s => match splitHostPort s with
